@@ -1,7 +1,8 @@
 ---- MODULE Trace_NTT ----
 (* C03 / C04 / C05 / C19: recorded transform calls are compared with the DEFINITIONS, evaluated by TLC over the limb
    field: the DFT  out[k] = sum_j x_j w_n^(jk), its inverse, and the low-degree extension onto 7*<w_Next>, by Horner
-   evaluation on one base vector x per size; column c of the input is m_c * x (checked on the logged input), so
+   evaluation on several base vectors x per size (one seeded vector in mixed representations and structured ones:
+   deltas with extreme values, constant p-1 / 2^64-1, alternating boundary values); column c of the input is m_c * x (checked on the logged input), so
    column c of the output must be m_c times the table row.  Any schedule / buffer use is accepted as long as the
    result is the definition, the source is preserved when the destination is another buffer, and the slack around
    exact-extent buffers is untouched.  A crash event is never accepted. *)
@@ -10,7 +11,8 @@ VARIABLE l
 In == JsonDeserialize(IOEnv.NTTIN)        \* W: the library's root table (from the tree), X: base vectors, M: multipliers
 MaxD == In.maxd
 Wr(k) == In.W[k + 1]
-Xv(d) == In.X[d + 1]
+Xv(d, v) == In.X[d + 1][v + 1]          \* base vector number v for size 2^d (0 = seeded mix; 1.. = structured: deltas, constants, extremes)
+NV == In.nv
 Mc(c) == In.M[c + 1]
 Pow2(k) == 2^k
 Seven == Small(7)
@@ -23,20 +25,20 @@ Eval(c, x) == Horner(c, x, Len(c), Zero8)
 NInv(d) == FPowN(HalfW, d)
 WInv(d) == FPowN(Wr(d), Pow2(d) - 1)
 (* evaluation points as tables of VALUES (an operator argument is re-evaluated at every use inside a recursion) *)
-XvT == TLCEval([d \in 0..MaxD |-> Xv(d)])
+XvT == TLCEval([d \in 0..MaxD |-> TLCEval([v \in 0..(NV - 1) |-> Xv(d, v)])])
 FwdPts == TLCEval([d \in 0..MaxD |-> TLCEval([k \in 1..Pow2(d) |-> FPowN(Wr(d), k - 1)])])
 InvPts == TLCEval([d \in 0..MaxD |-> TLCEval([k \in 1..Pow2(d) |-> FPowN(WInv(d), k - 1)])])
 NInvT == TLCEval([d \in 0..MaxD |-> NInv(d)])
-DftT == TLCEval([d \in 0..MaxD |-> TLCEval([k \in 1..Pow2(d) |-> Eval(XvT[d], FwdPts[d][k])])])
-IdftT == TLCEval([d \in 0..MaxD |-> TLCEval([k \in 1..Pow2(d) |-> FMul(NInvT[d], Eval(XvT[d], InvPts[d][k]))])])
+DftT == TLCEval([d \in 0..MaxD |-> TLCEval([v \in 0..(NV - 1) |-> TLCEval([k \in 1..Pow2(d) |-> Eval(XvT[d][v], FwdPts[d][k])])])])
+IdftT == TLCEval([d \in 0..MaxD |-> TLCEval([v \in 0..(NV - 1) |-> TLCEval([k \in 1..Pow2(d) |-> FMul(NInvT[d], Eval(XvT[d][v], InvPts[d][k]))])])])
 LdePts == TLCEval([d \in 0..MaxD |-> TLCEval([x \in 0..(MaxD - d) |-> TLCEval([k \in 1..Pow2(d + x) |-> FMul(Seven, FwdPts[d + x][k])])])])
-LdeT == TLCEval([d \in 0..MaxD |-> TLCEval([x \in 0..(MaxD - d) |->
-            TLCEval([k \in 1..Pow2(d + x) |-> Eval(IdftT[d], LdePts[d][x][k])])])])
+LdeT == TLCEval([d \in 0..MaxD |-> TLCEval([x \in 0..(MaxD - d) |-> TLCEval([v \in 0..(NV - 1) |->
+            TLCEval([k \in 1..Pow2(d + x) |-> Eval(IdftT[d][v], LdePts[d][x][k])])])])])
 (* sanity of the root table taken from the tree: W[0] = 1, W[1] = -1, W[k]^2 = W[k-1] *)
 ASSUME Wr(0) = One8 /\ Wr(1) = PM1 /\ \A k \in 1..32 : FMul(Wr(k), Wr(k)) = Canon(Wr(k - 1))
 (* the two definitions are mutually inverse on the tables themselves (round trip) *)
-ASSUME \A d \in 0..MaxD : \A k \in 1..Pow2(d) : FMul(NInvT[d], Eval(DftT[d], InvPts[d][k])) = Canon(XvT[d][k])
-Table(e) == IF e.call = "ntt" THEN DftT[e.d] ELSE IF e.call = "intt" THEN IdftT[e.d] ELSE LdeT[e.d][e.x]
+ASSUME \A d \in 0..MaxD : \A v \in 0..(NV - 1) : \A k \in 1..Pow2(d) : FMul(NInvT[d], Eval(DftT[d][v], InvPts[d][k])) = Canon(XvT[d][v][k])
+Table(e) == IF e.call = "ntt" THEN DftT[e.d][e.xv] ELSE IF e.call = "intt" THEN IdftT[e.d][e.xv] ELSE LdeT[e.d][e.x][e.xv]
 Rows(e) == IF e.call = "ext" THEN Pow2(e.d + e.x) ELSE Pow2(e.d)
 OutOk(e, out) ==
   /\ Len(out) = Rows(e) * e.ncols
@@ -44,7 +46,7 @@ OutOk(e, out) ==
      \A k \in 0..(Rows(e) - 1), c \in 0..(e.ncols - 1) : EqModP(out[k * e.ncols + c + 1], FMul(Mc(c), T[k + 1]))
 OkInput(e) == LET n == Pow2(e.d) IN
   /\ Len(e.cells) = n * e.ncols
-  /\ \A j \in 0..(n - 1), c \in 0..(e.ncols - 1) : EqModP(e.cells[j * e.ncols + c + 1], FMul(Mc(c), Xv(e.d)[j + 1]))
+  /\ \A j \in 0..(n - 1), c \in 0..(e.ncols - 1) : EqModP(e.cells[j * e.ncols + c + 1], FMul(Mc(c), XvT[e.d][e.xv][j + 1]))
 OkTr(e) == e.src_same /\ e.slack_ok /\ OutOk(e, e.out)
 (* C19: the k-th call on the shared object returns exactly what a fresh object returns, and both are the definition *)
 OkHist(e) == e.src_same /\ e.slack_ok /\ Len(e.out) = Len(e.fresh)
